@@ -1,7 +1,7 @@
 """Single source for MANIFEST.json (tools/mkmanifest.py)."""
 HOOK_COMMITS = []
 # properties whose check the integrator has verified on the clean tree (others stay under not_applicable until then)
-READY = ["C01", "C02", "C03", "C04", "C05", "C06", "C07", "C08", "C09", "C10", "C11", "C12", "C13", "C14", "C15", "C16", "C17", "C18", "C19", "C20", "C21", "C22", "C23", "C24", "C25", "C26", "C27", "C28", "C29", "C30", "C31", "C32", "C33", "C34", "C35", "C36", "C37", "C38", "C39", "C40", "C41", "C42", "C43", "C44", "C49", "C50", "C52", "C53", "C54", "C55", "C56"]
+READY = ["C01", "C02", "C03", "C04", "C05", "C06", "C07", "C08", "C09", "C10", "C11", "C12", "C13", "C14", "C15", "C16", "C17", "C18", "C19", "C20", "C21", "C22", "C23", "C24", "C25", "C26", "C27", "C28", "C29", "C30", "C31", "C32", "C33", "C34", "C35", "C36", "C37", "C38", "C39", "C40", "C41", "C42", "C43", "C44", "C45", "C46", "C47", "C48", "C49", "C50", "C51", "C52", "C53", "C54", "C55", "C56"]
 NOTES = ("Technique: explicit TLA+ specifications (specs/*.tla) checked with TLC, bound to /repo's working tree by "
          "spec->code replay of TLC-enumerated cases / state-graph edges and code->spec trace validation. "
          "See DESIGN.md. Exit 2 = machinery failure (never a property verdict).")
